@@ -157,12 +157,20 @@ theorem derivations_commute_partial (E : Env α) (s : State κ α) (vs : s.Valid
 
 /-! ### second tie (engine F): the store sites of the source, regenerated on every run -/
 
+/-- store sites named here are not stores into the memory of an existing mesh (reviewed by hand; the only exclusions):
+    * `flattenSkeletonToNodes` (formats/gltf/write.go) adds an offset IN PLACE to the slice `Skeleton.Children(i)` returns,
+      i.e. to the skeleton's own joint table — animation data, not a mesh value (reported as an observation in notes/C01.md);
+    * `obj.Load` (formats/obj/fs.go) sets the material pointers of the meshes it has just read, before returning them. -/
+def knownNonMesh : List (String × String) :=
+  [("flattenSkeletonToNodes", "children"), ("Load", "meshes[meshI].Mesh.Materials()[matI]")]
+
 /-- **store_sites_fresh.** Every syntactic store site (`x[i] = v`, `append(x, …)`, `copy(x, …)`, `delete`, `sort.*`, field
-    stores through pointers) of modeling/mesh.go, tri/line/point.go, meshops, repeat, primitives and the ply/obj/stl writers
+    stores through pointers) of modeling/mesh.go, tri/line/point.go, meshops, repeat, primitives, the ply/obj/stl/splat/spz writers and — with the `*Writer`'s own state exempted — formats/gltf
     — `Gen.C01Stores.sites`, extracted from the working tree by go/facts/c01.go before this file is compiled — stores into
     memory that the extractor's conservative provenance analysis shows to be allocated by the same call.  This is the
     source-level counterpart of `op_writes_fresh_only`; an in-place write added to these files makes this theorem fail. -/
-theorem store_sites_fresh : ∀ s ∈ Gen.C01Stores.sites, s.fresh = true := by decide +kernel
+theorem store_sites_fresh :
+    ∀ s ∈ Gen.C01Stores.sites, s.fresh = true ∨ (s.fn, s.base) ∈ knownNonMesh := by decide +kernel
 
 /-- the scan is not vacuous: it saw `Append`, `appendData`, the weld, an attribute transformer and a primitive -/
 theorem store_sites_cover :
